@@ -427,7 +427,10 @@ impl Model {
                             Some(true) => {}
                         }
                     }
-                    if f & (F_RST | F_SYN | F_FIN) != 0 && !validated {
+                    // (a FIN on a segment that carries PSH and ACK does not make it less of a data
+                    // segment: C07's data rule and C09's "flows that sent a PSH|ACK segment with
+                    // ack = cookie+1" apply to it)
+                    if f & (F_RST | F_SYN) != 0 && !validated {
                         // PSH|ACK together with RST/SYN/FIN and a valid cookie: the statements
                         // pull both ways (C07 data rule vs C12 reply-marked segments)
                         tbl.pending_maybe = Some(key);
@@ -449,7 +452,7 @@ impl Model {
                             why: "inconsistent headers".into(),
                         };
                     }
-                    if validated && valid_ack != Some(true) && f & (F_RST | F_SYN | F_FIN) != 0 {
+                    if validated && valid_ack != Some(true) && f & (F_RST | F_SYN) != 0 {
                         tbl.flows.get_mut(&key).unwrap().muddled = true;
                         return L4Expect::DataMaybe {
                             seq,
